@@ -351,6 +351,32 @@ static long nv_forkloop(long n, void (*fn)(long), void (*desc)(long, char *, int
 	return fatal;
 }
 
+/* one conformance trace for lib/nv.py conformance(): a file, the input fed to "vi -s -e <file>", and the files expected afterwards */
+static void nv_hexs(char *d, const char *s)
+{
+	long i, n = strlen(s);
+	for (i = 0; i < n; i++)
+		sprintf(d + i * 2, "%02x", (unsigned char) s[i]);
+	d[n * 2] = '\0';
+}
+static void nv_trace_ex(const char *exinit, const char *fname, const char *fcontent, const char *input,
+		const char *ename1, const char *e1, const char *ename2, const char *e2)
+{
+	static char h1[8192], h2[8192], h3[8192], h4[8192];
+	if (strlen(fcontent) > 4000 || strlen(input) > 4000 || strlen(e1) > 4000 || (e2 && strlen(e2) > 4000))
+		return;
+	nv_hexs(h1, fcontent);
+	nv_hexs(h2, input);
+	nv_hexs(h3, e1);
+	fprintf(nv_out, "TRACE {\"argv\":[\"-s\",\"-e\",\"%s\"],\"env\":{\"LINES\":\"24\",\"COLUMNS\":\"80\",\"EXINIT\":\"%s\"},\"files\":{\"%s\":\"%s\"},\"input\":\"%s\",\"expect_files\":{\"%s\":\"%s\",\"%s\":\"%s\"",
+		fname, exinit, fname, h1, h2, fname, h1, ename1, h3);
+	if (e2) {
+		nv_hexs(h4, e2);
+		fprintf(nv_out, ",\"%s\":\"%s\"", ename2, h4);
+	}
+	fprintf(nv_out, "}}\n");
+}
+
 /* small open-addressing set of 64-bit hashes, to count distinct things */
 struct nv_set { unsigned long long *t; long cap, n; };
 static void nv_set_init(struct nv_set *s, long cap)
